@@ -29,6 +29,7 @@ type Trial struct {
 	Names []string   `json:"names"`           // member names (valid UTF-8), tried one per input and all together
 	Dup   bool       `json:"dup"`             // the combined input is also run with AllowDuplicateNames(true)
 	Funcs bool       `json:"funcs,omitempty"` // caller-supplied functions for a type that occurs nowhere are passed along (they apply to nothing)
+	Collide int      `json:"collide,omitempty"` // k > 0: the embedded map fallback also holds the name of the k-th surviving declared member (a member that was written must not be written twice)
 	FMeth bool       `json:"fmeth,omitempty"` // a caller-supplied MarshalFunc for MethStr is passed along (it replaces the type's own method; the option value is shared by all value profiles of the trial)
 }
 
@@ -210,6 +211,37 @@ func Run(c Case) error {
 			for i, v := range vals {
 				if err := m.checkMarshal(c.Desc, v, fl, opts); err != nil {
 					return fmt.Errorf("%v\nvalue profile %d %v\nopts %s\ntype %s", err, i, c.Modes[i], optSig, sig)
+				}
+			}
+		}
+
+		// --- Marshal with an embedded map fallback that repeats the name of a declared member
+		if !special && tr.Collide > 0 && !fl.allowDup && r.fallback != nil && r.fallback.f.T.K == "map" && r.fallback.f.T.Key.K == "string" && len(r.fields) > 0 {
+			name := r.fields[(tr.Collide-1)%len(r.fields)].ti.name
+			for i, v := range vals {
+				v2 := reflect.New(v.Type()).Elem()
+				v2.Set(v)
+				fv, ok := fieldAt(v2, r.fallback.path)
+				if !ok || !fv.CanSet() {
+					continue
+				}
+				nm := reflect.MakeMap(fv.Type())
+				// (a single entry: the order of several map entries is not specified)
+				e := reflect.New(fv.Type().Elem()).Elem()
+				if e.Kind() == reflect.Interface {
+					e.Set(reflect.ValueOf(7))
+				} else {
+					setNum(r.fallback.f.T.Elem, e, 7)
+				}
+				nm.SetMapIndex(reflect.ValueOf(name).Convert(fv.Type().Key()), e)
+				old := reflect.New(fv.Type()).Elem()
+				old.Set(fv)
+				fv.Set(nm)
+				rec.Class("marshal: fallback repeats a declared name")
+				err := m.checkMarshal(c.Desc, v2, fl, opts)
+				fv.Set(old) // (the fallback may sit behind a pointer that the value profiles share with later trials)
+				if err != nil {
+					return fmt.Errorf("%v\nvalue profile %d %v with %q as the only entry of the embedded fallback\nopts %s\ntype %s", err, i, c.Modes[i], name, optSig, sig)
 				}
 			}
 		}
